@@ -4,7 +4,8 @@ from bounded import b_seq as B
 
 from contracts import dna as D
 
-P_UNITS = [LUnit("pairing-table", D.lemma_base_library)]
+P_UNITS = [LUnit("pairing-table", D.lemma_base_library),
+           PUnit("complement-strand", [D.COMPLEMENT], D.REG)]
 
 
 def build(tier, seed):
